@@ -422,6 +422,10 @@ Lemma loop_modes_none_break mb ct :
   has F_BREAK mb = true -> has F_NONE (loop_exit_modes mb ct) = true.
 Proof. destruct mb as [[] [] [] [] []], ct; simpl; intros H; try discriminate H; reflexivity. Qed.
 
+Arguments has : simpl never.
+Arguments atom_update : simpl never.
+Arguments block_update : simpl never.
+
 (* ------------------------------------------------------------------ unfolding lemmas *)
 Lemma analyse_code ss :
   analyse (BCode ss) = (BCode (trunc_stmts ss initial_mode initial_found_continue),
@@ -466,11 +470,55 @@ Proof.
   reflexivity.
 Qed.
 
+Lemma trunc_code ss : trunc (BCode ss) = BCode (trunc_stmts ss initial_mode initial_found_continue).
+Proof. unfold trunc. rewrite analyse_code. reflexivity. Qed.
+Lemma modes_code ss : modes_of (BCode ss) = modes_stmts ss initial_mode initial_found_continue.
+Proof. unfold modes_of. rewrite analyse_code. reflexivity. Qed.
+Lemma trunc_if c t e : trunc (BIf c t e) = BIf c (trunc t) (trunc e).
+Proof. unfold trunc at 1. rewrite analyse_if. reflexivity. Qed.
+Lemma modes_if c t e : modes_of (BIf c t e) = if_exit_modes (modes_of t) (modes_of e).
+Proof. unfold modes_of at 1. rewrite analyse_if. reflexivity. Qed.
+Lemma trunc_loop c b k : trunc (BLoop c b k) = BLoop c (trunc b) k.
+Proof. unfold trunc at 1. rewrite analyse_loop. reflexivity. Qed.
+Lemma modes_loop c b k : modes_of (BLoop c b k) = loop_exit_modes (modes_of b) (cond_is_true c).
+Proof. unfold modes_of at 1. rewrite analyse_loop. reflexivity. Qed.
+Lemma trunc_try b k h : trunc (BTry b k h) = BTry (trunc b) k (trunc h).
+Proof. unfold trunc at 1. rewrite analyse_try. reflexivity. Qed.
+Lemma modes_try b k h :
+  modes_of (BTry b k h) = try_exit_modes (modes_of b) (handler_modes k (modes_of h)).
+Proof. unfold modes_of at 1. rewrite analyse_try. reflexivity. Qed.
+Lemma trunc_preempt b : trunc (BPreempt b) = BPreempt (trunc b).
+Proof. unfold trunc at 1. rewrite analyse_preempt. reflexivity. Qed.
+Lemma modes_preempt b : modes_of (BPreempt b) = preempt_exit_modes (modes_of b).
+Proof. unfold modes_of at 1. rewrite analyse_preempt. reflexivity. Qed.
+Lemma trunc_atom a r m fc :
+  trunc_stmts (SAtom a r) m fc =
+  if loop_exit_guard m fc then SNil
+  else SAtom a (trunc_stmts r (atom_update a m) (atom_continue a || fc)).
+Proof. unfold trunc_stmts at 1. rewrite analyse_stmts_atom. destruct (loop_exit_guard m fc); reflexivity. Qed.
+Lemma modes_atom a r m fc :
+  modes_stmts (SAtom a r) m fc =
+  if loop_exit_guard m fc then m else modes_stmts r (atom_update a m) (atom_continue a || fc).
+Proof. unfold modes_stmts at 1. rewrite analyse_stmts_atom. destruct (loop_exit_guard m fc); reflexivity. Qed.
+Lemma trunc_block b r m fc :
+  trunc_stmts (SBlock b r) m fc =
+  if loop_exit_guard m fc then SNil
+  else SBlock (trunc b) (trunc_stmts r (block_update m (modes_of b)) (block_continue || fc)).
+Proof. unfold trunc_stmts at 1. rewrite analyse_stmts_block. destruct (loop_exit_guard m fc); reflexivity. Qed.
+Lemma modes_block b r m fc :
+  modes_stmts (SBlock b r) m fc =
+  if loop_exit_guard m fc then m
+  else modes_stmts r (block_update m (modes_of b)) (block_continue || fc).
+Proof. unfold modes_stmts at 1. rewrite analyse_stmts_block. destruct (loop_exit_guard m fc); reflexivity. Qed.
+Lemma trunc_nil m fc : trunc_stmts SNil m fc = SNil.
+Proof. reflexivity. Qed.
+Lemma modes_nil m fc : modes_stmts SNil m fc = m.
+Proof. reflexivity. Qed.
+
 Ltac unf :=
-  unfold trunc, modes_of, trunc_stmts, modes_stmts in *;
-  repeat (rewrite ?analyse_code, ?analyse_if, ?analyse_loop, ?analyse_try, ?analyse_preempt,
-                  ?analyse_stmts_atom, ?analyse_stmts_block in *);
-  fold trunc modes_of trunc_stmts modes_stmts in *.
+  rewrite ?trunc_code, ?modes_code, ?trunc_if, ?modes_if, ?trunc_loop, ?modes_loop, ?trunc_try,
+    ?modes_try, ?trunc_preempt, ?modes_preempt, ?trunc_atom, ?modes_atom, ?trunc_block,
+    ?modes_block, ?trunc_nil, ?modes_nil in *.
 
 (* ------------------------------------------------------------------ monotonicity *)
 Lemma modes_stmts_keeps ss : forall m fc f,
@@ -520,3 +568,616 @@ Proof.
   - specialize (Hvc Hv). discriminate Hvc.
 Qed.
 
+Lemma atom_abrupt_sound a o m v :
+  exec_atom a o -> o <> Normal -> ok o v -> (v = true -> visible_atom a = true) ->
+  covers (atom_update a m) o.
+Proof.
+  intros H Hn Hok Hv.
+  assert (Hnv : visible_atom a = false -> core o) by
+    (intros E; destruct Hok as [?|Hv']; [assumption | rewrite (Hv Hv') in E; discriminate E]).
+  inversion H as [s o' Hs| | | | |]; subst; clear H.
+  - inversion Hs; subst; try congruence; unfold covers; cbn [class_of];
+      rewrite ?upd_is_defeat, ?upd_win, ?upd_broken, ?upd_call, ?has_replace, ?has_or;
+      try apply orb_true_r; exfalso; exact (Hnv eq_refl).
+  - unfold covers; cbn [class_of]. rewrite upd_return, has_replace. apply orb_true_r.
+  - exfalso. exact (Hnv eq_refl).
+  - exfalso. exact (Hnv eq_refl).
+  - unfold covers; cbn [class_of]. rewrite upd_break, has_replace. apply orb_true_r.
+  - exact I.
+Qed.
+
+Lemma atom_normal a m :
+  exec_atom a Normal -> has F_NONE m = true ->
+  has F_NONE (atom_update a m) = true /\ atom_continue a = false.
+Proof.
+  intros H Hm. inversion H as [s o' Hs| | | | |]; subst.
+  inversion Hs; subst; rewrite ?upd_plain, ?upd_opaque, ?upd_call, ?has_or, ?Hm; split; reflexivity.
+Qed.
+
+Lemma covers_keeps r m fc o : o <> Normal -> covers m o -> covers (modes_stmts r m fc) o.
+Proof.
+  unfold covers. destruct o; simpl; intros Hn H; try congruence; try exact I;
+    (apply modes_stmts_keeps; [discriminate | exact H]).
+Qed.
+
+Lemma covers_block_update m mb o : covers mb o -> covers (block_update m mb) o.
+Proof.
+  unfold covers. destruct (class_of o); [apply block_update_adds | trivial].
+Qed.
+
+Lemma loop_sound c body k mb :
+  (forall o, exec body o -> ok o (visible body) -> covers mb o) ->
+  forall o, exec (BLoop c body k) o -> ok o (visible (BLoop c body k)) ->
+            covers (loop_exit_modes mb (cond_is_true c)) o.
+Proof.
+  intros IHb o H. remember (BLoop c body k) as L eqn:EL.
+  induction H; inversion EL; subst; clear EL; intros Hok.
+  - (* exit *)
+    unfold covers; simpl. destruct c; simpl in *; try discriminate; apply loop_modes_none_nonconst.
+  - exfalso. eapply cond_abort_not_ok; eauto. intros V. apply visible_loop in V. tauto.
+  - (* break *)
+    unfold covers; simpl. apply loop_modes_none_break.
+    specialize (IHb Break H0 (or_introl I)). exact IHb.
+  - (* abrupt *)
+    assert (Hc : covers mb o).
+    { apply IHb; [assumption|]. eapply ok_sub; [exact Hok|]. intros V. apply visible_loop in V. tauto. }
+    unfold covers in *.
+    destruct H1 as [[v ->]|[-> | ->]]; simpl in *; apply loop_modes_keep; try discriminate; assumption.
+  - (* cont ends the execution *)
+    exfalso. destruct Hok as [Hc|V].
+    + assert (E : o = Normal \/ o = Defeat \/ o = Terminal).
+      { destruct k as [s|]; simpl in H2; [eapply exec_simple_outcomes; eauto | auto]. }
+      destruct E as [->|[->| ->]]; [congruence | exact Hc | exact Hc].
+    + apply visible_loop in V. destruct V as (_ & _ & Q). apply (exec_cont_quiet _ _ Q) in H2. congruence.
+  - (* next iteration *)
+    apply IHexec2; [reflexivity | assumption].
+Qed.
+
+Theorem sound_mutual :
+  (forall b o, exec (trunc b) o -> ok o (visible (trunc b)) -> covers (modes_of b) o) /\
+  (forall ss m fc o, loop_exit_guard m fc = false ->
+     exec_stmts (trunc_stmts ss m fc) o -> ok o (visible_stmts (trunc_stmts ss m fc)) ->
+     covers (modes_stmts ss m fc) o).
+Proof.
+  apply block_stmts_mutind.
+  - (* BCode *)
+    intros ss IH o H Hok. unf. simpl in *. inversion H; subst.
+    apply IH; [reflexivity | assumption | assumption].
+  - (* BIf *)
+    intros c t IHt e IHe o H Hok. unf. simpl fst in *. simpl snd.
+    assert (S : forall x, covers (modes_of t) x \/ covers (modes_of e) x ->
+                          covers (if_exit_modes (modes_of t) (modes_of e)) x).
+    { intros x. unfold covers, if_exit_modes. destruct (class_of x); [|tauto].
+      rewrite has_or. intros [-> | ->]; [reflexivity | apply orb_true_r]. }
+    inversion H; subst.
+    + exfalso. eapply cond_abort_not_ok; eauto. intros V. apply visible_if in V. tauto.
+    + apply S. left. apply IHt; [assumption|]. eapply ok_sub; [exact Hok|].
+      intros V. apply visible_if in V. tauto.
+    + apply S. right. apply IHe; [assumption|]. eapply ok_sub; [exact Hok|].
+      intros V. apply visible_if in V. tauto.
+  - (* BLoop *)
+    intros c body IHb k o H Hok. unf. simpl fst in *. simpl snd.
+    eapply loop_sound; eauto.
+  - (* BTry *)
+    intros body IHb k h IHh o H Hok. unf. simpl fst in *. simpl snd.
+    assert (Hm : handler_modes k (modes_of h) = modes_of h) by (destruct k; reflexivity).
+    rewrite Hm. unfold try_exit_modes.
+    inversion H; subst.
+    + assert (C : covers (modes_of body) o).
+      { apply IHb; [assumption|]. eapply ok_sub; [exact Hok|]. intros V. apply visible_try in V. tauto. }
+      unfold covers in *. destruct o; simpl in *; try exact I; try congruence;
+        rewrite has_replace, C; reflexivity.
+    + assert (C : covers (modes_of h) o).
+      { apply IHh; [assumption|]. eapply ok_sub; [exact Hok|]. intros V. apply visible_try in V. tauto. }
+      unfold covers in *. destruct (class_of o); [|exact I]. rewrite has_replace, C. apply orb_true_r.
+  - (* BPreempt *)
+    intros body IHb o H Hok. unf. simpl fst in *. simpl snd. unfold preempt_exit_modes.
+    inversion H; subst.
+    + unfold covers; simpl. rewrite has_or. apply orb_true_r.
+    + assert (C : covers (modes_of body) o) by (apply IHb; assumption).
+      unfold covers in *. destruct (class_of o); [|exact I]. rewrite has_or, C. reflexivity.
+  - (* SNil *)
+    intros m fc o G H _. unfold trunc_stmts, modes_stmts in *. simpl in *. inversion H; subst.
+    unfold covers; simpl. apply guard_false in G. tauto.
+  - (* SAtom *)
+    intros a r IH m fc o G H Hok. unf. rewrite G in *. simpl fst in *. simpl snd.
+    destruct (guard_false _ _ G) as [Gm Gf]. subst fc.
+    simpl in Hok.
+    inversion H; subst.
+    + apply covers_keeps; [assumption|].
+      eapply atom_abrupt_sound; eauto. intros V. rewrite V in *.
+      apply andb_true_iff in V. tauto.
+    + match goal with Hx : exec_atom a Normal |- _ => destruct (atom_normal a m Hx Gm) as [N C] end.
+      rewrite C in *. simpl in *.
+      apply IH; [rewrite guard_spec, N; reflexivity | assumption |].
+      eapply ok_sub; [exact Hok|]. intros V. apply andb_true_iff in V. tauto.
+  - (* SBlock *)
+    intros b IHb r IHr m fc o G H Hok. unf. rewrite G in *. simpl fst in *. simpl snd.
+    destruct (guard_false _ _ G) as [Gm Gf]. subst fc.
+    try rewrite block_continue_spec in *. simpl orb in *. simpl in Hok.
+    inversion H; subst.
+    + apply covers_keeps; [assumption|]. apply covers_block_update.
+      apply IHb; [assumption|]. eapply ok_sub; [exact Hok|]. intros V. apply andb_true_iff in V. tauto.
+    + assert (C : covers (modes_of b) Normal).
+      { apply IHb; [assumption | left; exact I]. }
+      apply IHr; [ | assumption | ].
+      * rewrite guard_spec. unfold covers in C; simpl in C.
+        rewrite (block_update_adds m _ _ C). reflexivity.
+      * eapply ok_sub; [exact Hok|]. intros V. apply andb_true_iff in V. tauto.
+Qed.
+
+Lemma analyse_eq b b' m : analyse b = (b', m) -> b' = trunc b /\ m = modes_of b.
+Proof. unfold trunc, modes_of. intros ->. auto. Qed.
+
+(* (a), unconditional part: Normal, Break and Return are always accounted for -- whatever is
+   hidden inside expressions or in the `cont` of a for loop. *)
+Theorem exit_modes_sound_core : forall b b' m o,
+  analyse b = (b', m) -> exec b' o -> core o -> covers m o.
+Proof.
+  intros b b' m o E H C. apply analyse_eq in E. destruct E as [-> ->].
+  apply (proj1 sound_mutual); [assumption | left; assumption].
+Qed.
+
+(* (a), all classes: when no defeat / terminal source is hidden from the analysis *)
+Theorem exit_modes_sound : forall b b' m o,
+  analyse b = (b', m) -> visible b' = true -> exec b' o -> covers m o.
+Proof.
+  intros b b' m o E V H. apply analyse_eq in E. destruct E as [-> ->].
+  apply (proj1 sound_mutual); [assumption | right; assumption].
+Qed.
+
+(* the corollary C16 is about: a block whose mode lacks NONE never completes normally *)
+Corollary no_NONE_never_completes : forall b b' m,
+  analyse b = (b', m) -> has F_NONE m = false -> ~ exec b' Normal.
+Proof.
+  intros b b' m E Hn H. pose proof (exit_modes_sound_core _ _ _ _ E H I) as C.
+  unfold covers in C; simpl in C. congruence.
+Qed.
+
+(* truncation only removes statements, so visibility of the source carries over *)
+Lemma visible_trunc_mutual :
+  (forall b, visible b = true -> visible (trunc b) = true) /\
+  (forall ss m fc, visible_stmts ss = true -> visible_stmts (trunc_stmts ss m fc) = true).
+Proof.
+  apply block_stmts_mutind.
+  - intros ss IH V. unf. simpl in *. apply IH; exact V.
+  - intros c t IHt e IHe V. unf. apply visible_if in V. simpl.
+    destruct V as (-> & Vt & Ve). rewrite (IHt Vt), (IHe Ve). reflexivity.
+  - intros c b IHb k V. unf. apply visible_loop in V. simpl.
+    destruct V as (-> & Vb & ->). rewrite (IHb Vb). reflexivity.
+  - intros b IHb k h IHh V. unf. apply visible_try in V. simpl.
+    destruct V as (Vb & Vh). rewrite (IHb Vb), (IHh Vh). reflexivity.
+  - intros b IHb V. unf. simpl in *. apply IHb; exact V.
+  - intros m fc _. reflexivity.
+  - intros a r IH m fc V. unf. destruct (loop_exit_guard m fc); [reflexivity|].
+    simpl in *. apply andb_true_iff in V. destruct V as [-> Vr]. simpl. apply IH; exact Vr.
+  - intros b IHb r IHr m fc V. unf. destruct (loop_exit_guard m fc); [reflexivity|].
+    simpl in *. apply andb_true_iff in V. destruct V as [Vb Vr]. rewrite (IHb Vb). simpl.
+    apply IHr; exact Vr.
+Qed.
+
+Corollary exit_modes_sound_src : forall b b' m o,
+  analyse b = (b', m) -> visible b = true -> exec b' o -> covers m o.
+Proof.
+  intros b b' m o E V H. eapply exit_modes_sound; eauto.
+  destruct (analyse_eq _ _ _ E) as [-> _]. apply (proj1 visible_trunc_mutual). assumption.
+Qed.
+
+(* ---- what is NOT true ---- *)
+(* Without the visibility condition the DEFEAT and LOOP classes are not sound: the `cont` of a
+   for loop is evaluated but its mode is thrown away.
+     for (;; !is_defeat()) { }     has mode LOOP         and ends in defeat
+     for (; c; all_is_win()) { }   has mode NONE         and ends in a terminal state *)
+Definition for_cont_defeat : block := BLoop CTrue (BCode SNil) (Some IsDefeat).
+Definition for_cont_win : block := BLoop CUnknown (BCode SNil) (Some AllIsWin).
+
+Theorem exit_modes_sound_refuted :
+  (exists b b' m, analyse b = (b', m) /\ exec b' Defeat /\ ~ covers m Defeat) /\
+  (exists b b' m, analyse b = (b', m) /\ exec b' Terminal /\ ~ covers m Terminal).
+Proof.
+  split.
+  - exists for_cont_defeat, for_cont_defeat, LOOP. split; [reflexivity|]. split.
+    + eapply X_loop_cont_abrupt with (o1 := Normal).
+      * reflexivity.
+      * constructor. constructor.
+      * left; reflexivity.
+      * simpl. constructor.
+      * discriminate.
+    + unfold covers; simpl. discriminate.
+  - exists for_cont_win, for_cont_win, NONE. split; [reflexivity|]. split.
+    + eapply X_loop_cont_abrupt with (o1 := Normal).
+      * exact I.
+      * constructor. constructor.
+      * left; reflexivity.
+      * simpl. constructor.
+      * discriminate.
+    + unfold covers; simpl. discriminate.
+Qed.
+
+(* Mapping Continue to NONE (as a first reading of "hidc keeps NONE in the mode after continue"
+   suggests) is refuted: { { continue; } return; } *)
+Definition continue_then_return : block :=
+  BCode (SBlock (BCode (SAtom AContinue SNil)) (SAtom (AReturn false false) SNil)).
+
+Theorem continue_as_NONE_refuted :
+  exists b b' m, analyse b = (b', m) /\ visible b' = true /\ exec b' Continue /\ has F_NONE m = false.
+Proof.
+  exists continue_then_return, continue_then_return, RETURN.
+  split; [reflexivity|]. split; [reflexivity|]. split; [|reflexivity].
+  constructor. apply X_block_stop; [|discriminate].
+  constructor. apply X_atom_stop; [constructor | discriminate].
+Qed.
+
+(* ------------------------------------------------------------------ (b) dropped code is dead *)
+Lemma exec_loop_congr c b1 b2 k :
+  (forall o, exec b1 o -> exec b2 o) ->
+  forall o, exec (BLoop c b1 k) o -> exec (BLoop c b2 k) o.
+Proof.
+  intros Hb o H. remember (BLoop c b1 k) as L eqn:EL.
+  induction H; inversion EL; subst; clear EL.
+  - apply X_loop_exit; assumption.
+  - apply X_loop_abort; assumption.
+  - apply X_loop_break; auto.
+  - apply X_loop_abrupt; auto.
+  - eapply X_loop_cont_abrupt; eauto.
+  - eapply X_loop_next; eauto.
+Qed.
+
+Theorem dead_mutual :
+  (forall b o, exec b o <-> exec (trunc b) o) /\
+  (forall ss m fc o, loop_exit_guard m fc = false ->
+     (exec_stmts ss o <-> exec_stmts (trunc_stmts ss m fc) o)).
+Proof.
+  apply block_stmts_mutind.
+  - intros ss IH o. unf. simpl. split; intros H; inversion H; subst; constructor;
+      (apply (IH initial_mode initial_found_continue o eq_refl); assumption).
+  - intros c t IHt e IHe o. unf. simpl. split; intros H; inversion H; subst.
+    + apply X_if_abort; assumption.
+    + apply X_if_true; [assumption | apply IHt; assumption].
+    + apply X_if_false; [assumption | apply IHe; assumption].
+    + apply X_if_abort; assumption.
+    + apply X_if_true; [assumption | apply IHt; assumption].
+    + apply X_if_false; [assumption | apply IHe; assumption].
+  - intros c b IHb k o. unf. simpl. split; apply exec_loop_congr; intros x; apply IHb.
+  - intros b IHb k h IHh o. unf. simpl. split; intros H; inversion H; subst.
+    + apply X_try_pass; [apply IHb; assumption | assumption].
+    + apply X_try_handle; [apply IHb | apply IHh]; assumption.
+    + apply X_try_pass; [apply IHb; assumption | assumption].
+    + apply X_try_handle; [apply IHb | apply IHh]; assumption.
+  - intros b IHb o. unf. simpl. split; intros H; inversion H; subst.
+    + apply X_preempt_skip.
+    + apply X_preempt_run. apply IHb; assumption.
+    + apply X_preempt_skip.
+    + apply X_preempt_run. apply IHb; assumption.
+  - intros m fc o _. unfold trunc_stmts. simpl. tauto.
+  - intros a r IH m fc o G. unf. rewrite G. simpl.
+    destruct (guard_false _ _ G) as [Gm Gf]. subst fc.
+    split; intros H; inversion H; subst.
+    + apply X_atom_stop; assumption.
+    + match goal with Hx : exec_atom a Normal |- _ => destruct (atom_normal a m Hx Gm) as [N C] end.
+      apply X_atom_next; [assumption|]. apply IH; [|assumption].
+      rewrite guard_spec, N, C. reflexivity.
+    + apply X_atom_stop; assumption.
+    + match goal with Hx : exec_atom a Normal |- _ => destruct (atom_normal a m Hx Gm) as [N C] end.
+      apply X_atom_next; [assumption|].
+      match goal with Hy : exec_stmts (trunc_stmts _ _ _) _ |- _ => apply IH in Hy; [assumption|] end.
+      rewrite guard_spec, N, C. reflexivity.
+  - intros b IHb r IHr m fc o G. unf. rewrite G. simpl.
+    destruct (guard_false _ _ G) as [Gm Gf]. subst fc.
+    assert (GN : exec (trunc b) Normal ->
+                 loop_exit_guard (block_update m (modes_of b)) (block_continue || false) = false).
+    { intros Hn. pose proof (proj1 sound_mutual b Normal Hn (or_introl I)) as C.
+      unfold covers in C; simpl in C. rewrite guard_spec, (block_update_adds m _ _ C). reflexivity. }
+    split; intros H; inversion H; subst.
+    + apply X_block_stop; [apply IHb; assumption | assumption].
+    + match goal with Hx : exec b Normal |- _ => apply IHb in Hx; pose proof (GN Hx) as G' end.
+      apply X_block_next; [assumption|]. apply IHr; assumption.
+    + apply X_block_stop; [apply IHb; assumption | assumption].
+    + match goal with Hx : exec (trunc b) Normal |- _ => pose proof (GN Hx) as G' end.
+      apply X_block_next; [apply IHb; assumption|].
+      match goal with Hy : exec_stmts (trunc_stmts _ _ _) _ |- _ => apply IHr in Hy; assumption end.
+Qed.
+
+(* (b): the statements hidc drops (after a point whose mode lacks NONE, or after `continue`)
+   can never run: the truncated block has exactly the executions of the original one. *)
+Theorem dropped_is_dead : forall b b' m,
+  analyse b = (b', m) -> forall o, exec b o <-> exec b' o.
+Proof.
+  intros b b' m E o. destruct (analyse_eq _ _ _ E) as [-> _]. apply (proj1 dead_mutual).
+Qed.
+
+(* ------------------------------------------------------------------ break / continue stay inside loops *)
+Lemma loop_no_escape c b k o : exec (BLoop c b k) o -> o <> Break /\ o <> Continue.
+Proof.
+  intros H. remember (BLoop c b k) as L eqn:EL.
+  induction H; inversion EL; subst; clear EL; try (split; discriminate).
+  - destruct H as [_ [-> | ->]]; split; discriminate.
+  - destruct H1 as [[v ->]|[-> | ->]]; split; discriminate.
+  - assert (E : o = Normal \/ o = Defeat \/ o = Terminal).
+    { destruct k as [s|]; simpl in H2; [eapply exec_simple_outcomes; eauto | auto]. }
+    destruct E as [->|[->| ->]]; split; discriminate.
+  - apply IHexec2. reflexivity.
+Qed.
+
+Definition escaping (o : outcome) : Prop := o = Break \/ o = Continue.
+
+Theorem no_escape_mutual :
+  (forall b inl o, closed_in inl b = true -> exec b o -> escaping o -> inl = true) /\
+  (forall ss inl o, closed_stmts inl ss = true -> exec_stmts ss o -> escaping o -> inl = true).
+Proof.
+  apply block_stmts_mutind.
+  - intros ss IH inl o C H E. inversion H; subst. eapply IH; eauto.
+  - intros c t IHt e IHe inl o C H E. simpl in C. apply andb_true_iff in C. destruct C as [Ct Ce].
+    inversion H; subst.
+    + destruct H4 as [_ [-> | ->]]; destruct E; discriminate.
+    + eapply IHt; eauto.
+    + eapply IHe; eauto.
+  - intros c b IHb k inl o C H E. apply loop_no_escape in H. destruct E; tauto.
+  - intros b IHb k h IHh inl o C H E. simpl in C. apply andb_true_iff in C. destruct C as [Cb Ch].
+    inversion H; subst; [eapply IHb | eapply IHh]; eauto.
+  - intros b IHb inl o C H E. inversion H; subst.
+    + destruct E; discriminate.
+    + eapply IHb; eauto.
+  - intros inl o _ H E. inversion H; subst. destruct E; discriminate.
+  - intros a r IH inl o C H E. simpl in C. apply andb_true_iff in C. destruct C as [Ca Cr].
+    inversion H; subst.
+    + match goal with Hx : exec_atom a o |- _ => inversion Hx; subst end; try assumption;
+        try (destruct E; discriminate).
+      match goal with Hs : exec_simple _ o |- _ =>
+        apply exec_simple_outcomes in Hs; destruct Hs as [->|[->| ->]]; destruct E; discriminate end.
+    + eapply IH; eauto.
+  - intros b IHb r IHr inl o C H E. simpl in C. apply andb_true_iff in C. destruct C as [Cb Cr].
+    inversion H; subst; [eapply IHb | eapply IHr]; eauto.
+Qed.
+
+(* a function body the parser accepts never ends in Break or Continue *)
+Corollary no_escape : forall ss o,
+  closed_stmts false ss = true -> exec_stmts ss o -> o <> Break /\ o <> Continue.
+Proof.
+  intros ss o C H. split; intros ->.
+  - pose proof (proj2 no_escape_mutual ss false Break C H (or_introl eq_refl)). discriminate.
+  - pose proof (proj2 no_escape_mutual ss false Continue C H (or_intror eq_refl)). discriminate.
+Qed.
+
+(* ------------------------------------------------------------------ (c) functions *)
+Lemma exec_app a : forall b o,
+  exec_stmts (app_stmts a b) o ->
+  (exec_stmts a o /\ o <> Normal) \/ (exec_stmts a Normal /\ exec_stmts b o).
+Proof.
+  induction a as [|x r IH|x r IH]; intros b o H; simpl in H.
+  - right. split; [constructor | assumption].
+  - inversion H; subst.
+    + left. split; [apply X_atom_stop; assumption | assumption].
+    + match goal with Hy : exec_stmts (app_stmts _ _) _ |- _ => apply IH in Hy; destruct Hy as [[? ?]|[? ?]] end.
+      * left. split; [apply X_atom_next; assumption | assumption].
+      * right. split; [apply X_atom_next; assumption | assumption].
+  - inversion H; subst.
+    + left. split; [apply X_block_stop; assumption | assumption].
+    + match goal with Hy : exec_stmts (app_stmts _ _) _ |- _ => apply IH in Hy; destruct Hy as [[? ?]|[? ?]] end.
+      * left. split; [apply X_block_next; assumption | assumption].
+      * right. split; [apply X_block_next; assumption | assumption].
+Qed.
+
+Lemma exec_return_only o : exec_stmts (SAtom (AReturn false false) SNil) o -> o = Return false.
+Proof.
+  intros H. inversion H; subst;
+    match goal with Hx : exec_atom _ _ |- _ => inversion Hx; subst end; reflexivity.
+Qed.
+
+Lemma trunc_body_exec body o :
+  exec_stmts (trunc_stmts body initial_mode initial_found_continue) o -> exec_stmts body o.
+Proof.
+  intros H. assert (X : exec (trunc (BCode body)) o) by (rewrite trunc_code; constructor; exact H).
+  apply (proj1 dead_mutual) in X. inversion X; subst. assumption.
+Qed.
+
+Lemma trunc_body_sound body o :
+  exec_stmts (trunc_stmts body initial_mode initial_found_continue) o -> core o ->
+  covers (modes_stmts body initial_mode initial_found_continue) o.
+Proof.
+  intros H C. rewrite <- modes_code. apply (proj1 sound_mutual).
+  - rewrite trunc_code. constructor. exact H.
+  - left. exact C.
+Qed.
+
+Lemma not_escaping_abrupt o : o <> Normal -> o <> Break -> o <> Continue -> abrupt o.
+Proof. unfold abrupt. destruct o; intros; try congruence; eauto. Qed.
+
+Lemma elab_accepted_inv ue d ret body ss m :
+  elab_func ue d ret body = Accepted ss m ->
+  let ss0 := trunc_stmts body initial_mode initial_found_continue in
+  let m0 := modes_stmts body initial_mode initial_found_continue in
+  diags ue ret (BCode body) = [] /\
+  ((has F_NONE m0 = false /\ ss = ss0 /\ m = m0) \/
+   (has F_NONE m0 = true /\ ret = RetEmpty /\
+    ss = app_stmts ss0 (SAtom (AReturn false false) SNil) /\ m = replace m0 NONE RETURN)).
+Proof.
+  unfold elab_func, trunc_stmts, modes_stmts.
+  destruct (diags ue ret (BCode body)) as [|e l]; [|discriminate].
+  destruct (analyse_stmts body initial_mode initial_found_continue) as [ss0 m0]. simpl.
+  destruct (negb (func_assert_1 m0 (ret_is_empty ret) d)); [discriminate|].
+  destruct (negb (func_assert_2 m0 (ret_is_empty ret) d)); [discriminate|].
+  unfold func_needs_fixup, func_missing_return, func_fixup_modes.
+  change NONE with (single F_NONE). rewrite m_in_single.
+  destruct (has F_NONE m0) eqn:HN.
+  - destruct ret; simpl; [|discriminate]. intros E. inversion E; subst. split; [reflexivity|].
+    right. auto.
+  - intros E. inversion E; subst. split; [reflexivity|]. left. auto.
+Qed.
+
+(* (c) In an accepted function no terminating execution of the final body (after the implicit
+   return has been inserted) ends by running off its end, nor by a stray break/continue: it
+   returns, is defeated, or enters a terminal state.  The mode recorded for the final body
+   lacks NONE -- which is what makes the generator omit any fall-through code. *)
+Theorem body_never_completes : forall ue d ret body ss m,
+  elab_func ue d ret body = Accepted ss m ->
+  has F_NONE m = false /\
+  (closed_stmts false body = true -> forall o, exec_stmts ss o -> abrupt o).
+Proof.
+  intros ue d ret body ss m E. apply elab_accepted_inv in E. cbv zeta in E.
+  destruct E as [_ [(HN & -> & ->)|(HN & -> & -> & ->)]].
+  - split; [exact HN|]. intros C o H.
+    pose proof (trunc_body_exec _ _ H) as Hb. destruct (no_escape _ _ C Hb) as [nb nc].
+    apply not_escaping_abrupt; try assumption. intros ->.
+    pose proof (trunc_body_sound _ _ H I) as S. unfold covers in S; simpl in S. congruence.
+  - split.
+    + rewrite has_replace, HN. reflexivity.
+    + intros C o H. apply exec_app in H. destruct H as [[H Hn]|[_ H]].
+      * pose proof (trunc_body_exec _ _ H) as Hb. destruct (no_escape _ _ C Hb) as [nb nc].
+        apply not_escaping_abrupt; assumption.
+      * apply exec_return_only in H. subst. left. eauto.
+Qed.
+
+(* a value-returning function whose body may complete is never accepted ... *)
+Theorem missing_return_rejected : forall ue d body,
+  has F_NONE (modes_of (BCode body)) = true ->
+  forall ss m, elab_func ue d RetValue body <> Accepted ss m.
+Proof.
+  intros ue d body HN ss m E. apply elab_accepted_inv in E. cbv zeta in E.
+  rewrite modes_code in HN.
+  destruct E as [_ [(HN' & _)|(_ & R & _)]]; [congruence | discriminate].
+Qed.
+
+(* ... and, when nothing else is wrong with it, the error is 'Missing return statement' *)
+Theorem missing_return_exact : forall ue d body,
+  diags ue RetValue (BCode body) = [] ->
+  has F_BREAK (modes_of (BCode body)) = false ->
+  (has F_DEFEAT (modes_of (BCode body)) = true -> d = true) ->
+  has F_NONE (modes_of (BCode body)) = true ->
+  elab_func ue d RetValue body = Rejected ErrMissingReturn.
+Proof.
+  intros ue d body D HB HD HN. rewrite modes_code in *. unfold elab_func, modes_stmts in *. rewrite D.
+  destruct (analyse_stmts body initial_mode initial_found_continue) as [ss0 m0]. simpl in *.
+  unfold func_assert_1, func_assert_2, func_needs_fixup, func_missing_return.
+  change BREAK with (single F_BREAK). change DEFEAT with (single F_DEFEAT).
+  change NONE with (single F_NONE). rewrite !m_in_single, HB, HN. simpl.
+  destruct (has F_DEFEAT m0); simpl; [rewrite HD; reflexivity | reflexivity].
+Qed.
+
+(* conversely an `empty` function is never rejected for a missing return *)
+Lemma diags_no_missing ue ret :
+  (forall b, ~ In ErrMissingReturn (diags ue ret b)) /\
+  (forall ss m fc, ~ In ErrMissingReturn (diags_stmts ue ret ss m fc)).
+Proof.
+  apply block_stmts_mutind.
+  - intros ss IH. simpl. apply IH.
+  - intros c t IHt e IHe. simpl. rewrite in_app_iff. tauto.
+  - intros c b IHb k. simpl. exact IHb.
+  - intros b IHb k h IHh. simpl. rewrite in_app_iff. tauto.
+  - intros b IHb. simpl. exact IHb.
+  - intros m fc. simpl. tauto.
+  - intros a r IH m fc. simpl. destruct (loop_exit_guard m fc).
+    + destruct ue; simpl; intuition discriminate.
+    + rewrite in_app_iff. intros [X|X]; [|exact (IH _ _ X)].
+      destruct a as [s|[] hh| |], ret; simpl in X; intuition discriminate.
+  - intros b IHb r IHr m fc. simpl. destruct (loop_exit_guard m fc).
+    + destruct ue; simpl; intuition discriminate.
+    + rewrite in_app_iff. intros [X|X]; [exact (IHb X) | exact (IHr _ _ X)].
+Qed.
+
+Theorem empty_never_missing_return : forall ue d body,
+  elab_func ue d RetEmpty body <> Rejected ErrMissingReturn.
+Proof.
+  intros ue d body. unfold elab_func.
+  destruct (diags ue RetEmpty (BCode body)) as [|e l] eqn:D.
+  - destruct (analyse_stmts body initial_mode initial_found_continue) as [ss0 m0]. simpl.
+    repeat match goal with |- context [if ?c then _ else _] => destruct c end; discriminate.
+  - intros E. inversion E; subst. clear E.
+    apply (proj1 (diags_no_missing ue RetEmpty) (BCode body)). rewrite D. left. reflexivity.
+Qed.
+
+(* "returns with a value, for non-empty functions" *)
+Lemma loop_return c body k v (P : Prop) :
+  (exec body (Return v) -> P) -> exec (BLoop c body k) (Return v) -> P.
+Proof.
+  intros Hb H. remember (BLoop c body k) as L eqn:EL. remember (Return v) as o eqn:Eo.
+  induction H; inversion EL; subst; clear EL; try discriminate.
+  - destruct H as [_ [X|X]]; discriminate X.
+  - auto.
+  - exfalso. assert (E : Return v = Normal \/ Return v = Defeat \/ Return v = Terminal).
+    { destruct k as [s|]; simpl in H2; [eapply exec_simple_outcomes; eauto | auto]. }
+    destruct E as [X|[X|X]]; discriminate X.
+  - apply IHexec2; [reflexivity | assumption | reflexivity].
+Qed.
+
+Theorem return_kind_mutual :
+  (forall b ue ret v, diags ue ret b = [] -> exec (trunc b) (Return v) -> v = negb (ret_is_empty ret)) /\
+  (forall ss ue ret m fc v, loop_exit_guard m fc = false -> diags_stmts ue ret ss m fc = [] ->
+     exec_stmts (trunc_stmts ss m fc) (Return v) -> v = negb (ret_is_empty ret)).
+Proof.
+  apply block_stmts_mutind.
+  - intros ss IH ue ret v D H. unf. inversion H; subst. simpl in D. eapply IH; eauto. reflexivity.
+  - intros c t IHt e IHe ue ret v D H. unf. simpl in D. apply app_eq_nil in D. destruct D as [Dt De].
+    inversion H; subst.
+    + match goal with Hx : cond_abort _ _ |- _ => destruct Hx as [_ [X|X]]; discriminate X end.
+    + eapply IHt; eauto.
+    + eapply IHe; eauto.
+  - intros c b IHb k ue ret v D H. unf. simpl in D. eapply loop_return; [|exact H].
+    intros Hb. eapply IHb; eauto.
+  - intros b IHb k h IHh ue ret v D H. unf. simpl in D. apply app_eq_nil in D. destruct D as [Db Dh].
+    inversion H; subst; [eapply IHb | eapply IHh]; eauto.
+  - intros b IHb ue ret v D H. unf. simpl in D. inversion H; subst. eapply IHb; eauto.
+  - intros ue ret m fc v _ _ H. unf. inversion H.
+  - intros a r IH ue ret m fc v G D H. unf. simpl in D. rewrite G in *.
+    destruct (guard_false _ _ G) as [Gm Gf]. subst fc.
+    apply app_eq_nil in D. destruct D as [Da Dr].
+    inversion H; subst.
+    + match goal with Hx : exec_atom a (Return v) |- _ => inversion Hx; subst end.
+      * match goal with Hs : exec_simple _ _ |- _ =>
+          apply exec_simple_outcomes in Hs; destruct Hs as [X|[X|X]]; discriminate X end.
+      * destruct v, ret; simpl in *; try reflexivity; discriminate Da.
+    + match goal with Hx : exec_atom a Normal |- _ => destruct (atom_normal a m Hx Gm) as [N C] end.
+      eapply IH; [| exact Dr | eassumption]. rewrite guard_spec, N, C. reflexivity.
+  - intros b IHb r IHr ue ret m fc v G D H. unf. simpl in D. rewrite G in *.
+    destruct (guard_false _ _ G) as [Gm Gf]. subst fc.
+    apply app_eq_nil in D. destruct D as [Db Dr].
+    inversion H; subst.
+    + eapply IHb; eauto.
+    + eapply IHr with (m := block_update m (modes_of b)) (fc := (block_continue || false)%bool);
+        [| exact Dr | eassumption].
+      match goal with Hx : exec (trunc b) Normal |- _ =>
+        pose proof (proj1 sound_mutual b Normal Hx (or_introl I)) as C end.
+      unfold covers in C; simpl in C. rewrite guard_spec, (block_update_adds m _ _ C). reflexivity.
+Qed.
+
+Theorem returns_carry_value : forall ue d ret body ss m v,
+  elab_func ue d ret body = Accepted ss m -> exec_stmts ss (Return v) ->
+  v = negb (ret_is_empty ret).
+Proof.
+  intros ue d ret body ss m v E H. apply elab_accepted_inv in E. cbv zeta in E.
+  destruct E as [D [(_ & -> & _)|(_ & -> & -> & _)]].
+  - simpl in D. eapply (proj2 return_kind_mutual); eauto. reflexivity.
+  - apply exec_app in H. destruct H as [[H _]|[_ H]].
+    + simpl in D. eapply (proj2 return_kind_mutual); eauto. reflexivity.
+    + apply exec_return_only in H. inversion H; subst. reflexivity.
+Qed.
+
+(* ------------------------------------------------------------------ analysing twice changes nothing *)
+Theorem analyse_idem_mutual :
+  (forall b, analyse (trunc b) = (trunc b, modes_of b)) /\
+  (forall ss m fc, analyse_stmts (trunc_stmts ss m fc) m fc = (trunc_stmts ss m fc, modes_stmts ss m fc)).
+Proof.
+  apply block_stmts_mutind.
+  - intros ss IH. unf. rewrite analyse_code. unfold trunc_stmts at 1, modes_stmts at 1.
+    rewrite IH. reflexivity.
+  - intros c t IHt e IHe. unf. rewrite analyse_if. unfold trunc at 1 2, modes_of at 1 2.
+    rewrite IHt, IHe. reflexivity.
+  - intros c b IHb k. unf. rewrite analyse_loop. unfold trunc at 1, modes_of at 1.
+    rewrite IHb. reflexivity.
+  - intros b IHb k h IHh. unf. rewrite analyse_try. unfold trunc at 1 2, modes_of at 1 2.
+    rewrite IHb, IHh. reflexivity.
+  - intros b IHb. unf. rewrite analyse_preempt. unfold trunc at 1, modes_of at 1.
+    rewrite IHb. reflexivity.
+  - reflexivity.
+  - intros a r IH m fc. unf. destruct (loop_exit_guard m fc) eqn:G; [reflexivity|].
+    rewrite analyse_stmts_atom, G. unfold trunc_stmts at 1, modes_stmts at 1. rewrite IH. reflexivity.
+  - intros b IHb r IHr m fc. unf. destruct (loop_exit_guard m fc) eqn:G; [reflexivity|].
+    rewrite analyse_stmts_block, G. unfold trunc at 1, modes_of at 1 2. rewrite IHb. simpl.
+    unfold trunc_stmts at 1, modes_stmts at 1. fold (modes_of b). rewrite IHr. reflexivity.
+Qed.
+
+Theorem analyse_idem : forall b, analyse (fst (analyse b)) = analyse b.
+Proof.
+  intros b. fold (trunc b). rewrite (proj1 analyse_idem_mutual).
+  unfold trunc, modes_of. destruct (analyse b); reflexivity.
+Qed.
